@@ -18,7 +18,7 @@ Require Import List ZArith Bool Reals.
 From Flocq Require Import Core BinarySingleNaN.
 From Dasp Require Import Base.Res Base.Float Sample.Rint Sample.ConvSpec Sample.SampleFmt Sample.SampleOps
   Sample.SampleOpsProofs Sample.SampleOpsFloatProofs Frame.Frame Frame.FrameProofs Frame.FrameOps Frame.FrameOpsProofs
-  Frame.FrameExamples.
+  Frame.FrameExamples Frame.ChanIter Frame.ChanIterProofs.
 From DaspGen Require Import FormatTable ConvGen SampleTable.
 Import ListNotations.
 Open Scope Z_scope.
@@ -246,6 +246,27 @@ Theorem c03_channels : forall (A : Type) (fr : list A) (fuel : nat), (length fr 
   channels_len (length fr) (mkChannels (length fr) fr) = Ok 0%nat.
 Proof. intros A. exact (@channels_spec A). Qed.
 Print Assumptions c03_channels.
+
+(* channel iteration under ANY script of iterator steps (next, nth k, skip k + next, step_by k + take t, count,
+   last, len) applied to ONE `channels()` iterator: every step observes, and the iterator is left with, exactly
+   what a list iterator over the frame's channels gives ([run_script_list]: nth k = the k-th remaining channel and
+   drops k+1, count/last drain, ...).  The provided methods of core::iter are modelled as core defines them from
+   next(), and run through the model of the crate's next(); an `nth` that treated k as an absolute index would
+   break this on a partly consumed iterator.  [ch_rem it] = the channels still to come. *)
+Theorem c03_channels_script : forall (A : Type) (N : nat) (sc : list step) (fr : list A),
+  length fr = N -> forallb by_value_step sc = true ->
+  fst (channels_script N sc fr) = fst (run_script_list sc fr) /\
+  ch_rem (snd (channels_script N sc fr)) = snd (run_script_list sc fr).
+Proof. intros A. exact (@channels_script_spec A). Qed.
+Print Assumptions c03_channels_script.
+
+(* the same for a bare sample: its channels() is the list iterator over [s] (an exhausted one stays exhausted) *)
+Theorem c03_mono_channels_script : forall (A : Type) (sc : list step) (s : A),
+  forallb by_value_step sc = true ->
+  fst (mono_channels_script sc s) = fst (run_script_list sc [s]) /\
+  mono_rem (snd (mono_channels_script sc s)) = snd (run_script_list sc [s]).
+Proof. intros A. exact (@mono_channels_script_spec A). Qed.
+Print Assumptions c03_mono_channels_script.
 
 (* channel(idx) = the idx-th channel, None from N on *)
 Theorem c03_channel_idx : forall (A : Type) (fr : list A) (idx : nat),
